@@ -176,8 +176,14 @@ def struct_eq(a, b):
 # ---------------------------------------------------------------- ints
 def int_method(ex, ty, name, args, dty):
     a = args[0] if args else None
+    if isinstance(a, RefV):
+        a = deref(ex, a)
+    if args and not isinstance(a, IntV):
+        return NOT_BUILTIN       # receiver is not an integer value (opaque): leave the call to the generic resolution
     x = a.t if isinstance(a, IntV) else None
     y = args[1].t if len(args) > 1 and isinstance(args[1], IntV) else None
+    if len(args) > 1 and y is None and isinstance(args[1], OpaqueV):
+        return NOT_BUILTIN
     lo, hi = ty_range(ty)
     bits, signed = INT_TYPES[ty]
 
@@ -448,9 +454,13 @@ def option_method(ex, fr, name, args, dty):
 
 def result_method(ex, fr, name, args, dty):
     if name not in ("map", "map_err", "and_then", "unwrap", "expect", "is_ok", "is_err", "ok", "err", "unwrap_or",
-                    "unwrap_or_else", "unwrap_or_default", "or_else", "expect_err", "unwrap_err"):
+                    "unwrap_or_else", "unwrap_or_default", "or_else", "expect_err", "unwrap_err", "or", "and"):
         return NOT_BUILTIN
     ok, p = _ok(ex, args[0])
+    if name == "or":
+        return mk_result(True, p, None, dty) if ok else args[1]
+    if name == "and":
+        return args[1] if ok else mk_result(False, None, p, dty)
     if name == "is_ok":
         return BoolV(ok)
     if name == "is_err":
